@@ -7,7 +7,13 @@ gives E_k <= sum_{j=k}^{L-1} H_j + E_L.  If the error vanishes at least linearly
 tail E_L = sum_{j>=L} H_j is bounded by a geometric series with ratio <= 1/2, i.e. by the
 last halving change.  The last change is taken as max(H_{L-1}, H_{L-2}/2, H_{L-3}/4) so
 that an accidental cancellation of two error terms of opposite sign at one rung cannot
-shrink the bound.  An error component that does NOT vanish with h leaves every H
+shrink the bound.  Round-off enters through the floors f_k (a bound on the rounding part
+of q(h_k)): the measured H already contain it, the measured last change may understate the
+truncation part of E_L by at most f_{L-1} + f_L, and E_L carries f_L itself, so every rung
+is allowed max(f_k, f_{L-1} + 2 f_L) on top (a systematic rounding bias - e.g. the same
+sub-ulp fraction of a constant increment dropped at every step - does not shrink with h and
+shows up as a plateau of the finest rungs; it is legitimate up to these floors and no
+further).  An error component that does NOT vanish with h leaves every H
 unchanged while E stays put: the bound is violated by about E_inf / H_{L-1}.
 """
 
@@ -21,8 +27,9 @@ def telescoped(E, H, floors, k_tail=K_TAIL):
     tail = max(H[L - 1 - j] / 2 ** j for j in range(min(3, L)))
     bad = []
     tight = 0.0
+    fl_tail = floors[L - 1] + 2 * floors[L]
     for k in range(L + 1):
-        allowed = sum(H[k:]) + k_tail * tail + floors[k]
+        allowed = sum(H[k:]) + k_tail * tail + max(floors[k], fl_tail)
         if allowed > 0:
             tight = max(tight, E[k] / allowed)
         if E[k] > allowed:
